@@ -64,8 +64,8 @@ def stepUnstable (cx : Ctx) (rc : Recv) (op : String) (args : List String) (robs
           pure { cx.same with status := "ok", toks := ["sort-contract-violated"] }
         else
           let res : Res (List Nat) :=
-            if byRow then do let a ← rc.acc m; a.sortUnstableByRow (rc.indexRow m) data p k
-            else do let a ← rc.acc m; a.sortUnstableByCol (rc.col m) (rc.swapRows m) data p k
+            if byRow then rc.run m sideLimit data (.sortRow (sideGiven p) k)
+            else rc.run m sideLimit data (.sortCol (sideGiven p) k)
           match res with
           | .ok d => pure { cx.same with data := d }
           | .error e => pure (cx.fail e)
@@ -77,7 +77,14 @@ def isFaultTok (s : String) : Bool := s.startsWith "!" && (s.splitOn ":").length
 def step (cx : Ctx) (line : String) (robs : Option RObs) : Option MOut :=
   match words line with
   | recvTok :: op :: args =>
-    if args.getLast?.map isFaultTok = some true then none else
+    -- fault injection: only a panicking comparator / key function of a stable sort is modelled (its outcome is a model input,
+    -- see `stepInplace`); every other faulted line is judged by the oracle alone
+    let faulted := args.getLast?.map isFaultTok = some true
+    let cmpFault := faulted ∧ op.startsWith "sort_" ∧ !op.startsWith "sort_unstable" ∧
+      ((args.getLast?.getD "").startsWith "!cmp:" ∨ (args.getLast?.getD "").startsWith "!key:")
+    if faulted ∧ !cmpFault then none else
+    let args := if faulted then args.dropLast else args
+    let cx := { cx with fault := faulted }
     match parseSegs recvTok with
     | none => some cx.badOp
     | some segs =>
